@@ -11,8 +11,13 @@ UNIT = {
     "specs": ["cwil.spec"],
     "items": [
         {"block": "struct", "header": r"struct CWIL", "file": F_MS, "rewrites": ["strip_type_head"]},
-        m("new"), m("add_limit"), m("remove_limit"), m("reset"), m("is_empty"),
+        m("new"), m("add_limit"), m("remove_limit"), m("reset"), dict(m("is_empty"), optional=True),
         {"fn": "increment_call_count", "impl": r"impl MachineState", "file": F_MS, "emit_name": "increment_call_count", "rewrites": STD,
          "wrap_pre": "impl MachineState {\n", "wrap_post": "}\n"},
+        # the last step of call_with_inference_limit/3 (src/machine/system_calls.rs). R7: of the Machine only machine_st is
+        # touched; reading the block register is one shim
+        {"fn": "remove_call_policy_check", "impl": r"impl Machine", "file": "src/machine/system_calls.rs", "emit_name": "Machine_remove_call_policy_check",
+         "rewrites": STD + [("replace", "unsafe { self.deref_register(1).to_fixnum_or_cut_point_unchecked() }.get_num() as usize", "self.block_register()", "R7")],
+         "wrap_pre": "impl Machine {\n", "wrap_post": "}\n"},
     ],
 }
